@@ -106,8 +106,8 @@ Proof.
 Qed.
 
 Lemma decide_categorical_eq (p : option bool) (is_float : bool) :
-  decide_categorical_src p is_float = match p with Some b => b | None => negb is_float end.
-Proof. reflexivity. Qed.
+  decide_categorical_src p is_float = spec_categorical p is_float.
+Proof. destruct p; reflexivity. Qed.
 
 (* cache[name]: a boolean keep mask (one entry per dump) selects exactly the masked per-dump values *)
 Lemma res_all_ok {A} (f : nat -> res A) (g : nat -> A) (l : list nat) :
